@@ -19,6 +19,12 @@ program, compiled by exactly one worker; base models are pre-built serially in s
               | size 2: affine2 | volecc (documented volume/eccentricity example) | chain2 | prefix2 | shared
               | size 3 (all three volume parameters of barbell, hollow_cylinder, parallelepiped, triaxial_ellipsoid):
                         affine3 | scale3 (one new parameter, one intermediate)
+  same-name ::= the new parameter is NAMED like the base parameter it replaces (same-affine | same-power; size 2:
+              same2-first | same2-second | same2-both)
+  validity  ::= for every base with a `valid` clause (cylinder, barbell, capped_cylinder, mass_surface_fractal, @gen
+              a <= bb, @gen2 1.5*aa <= 2.0*bb) and EVERY parameter of the clause: translations whose top-level
+              operator is ?: | + | - | * (vop-cond | vop-sum | vop-diff | vop-prod), with mono inputs on both
+              sides of the boundary, two meshes straddling it and one mesh entirely outside
   new type  ::= "volume" | ""   type of the new parameters that replace volume parameters.  "" is built for every
               template when the replaced set is ALL volume parameters of the base (the derived table then has no
               volume-typed parameter left, but volumes, R_eff and the volume normalisation must still be the base
@@ -107,7 +113,7 @@ parameters = [
     ["bb", "Ang", 40.0, [0, inf], "volume", "second volume parameter"],
     ["c0", "", 1.5, [-inf, inf], "", "plain parameter"],
 ]
-valid = "%(A)s <= bb"
+valid = "%(valid)s"
 radius_effective_modes = ["mode 1", "mode 2"]
 %(functions)s
 '''
@@ -140,7 +146,8 @@ c_code = """
 static double radius_effective(int mode, double a, double bb) { return mode == 1 ? a + 2.0*bb : bb - 0.5*a; }
 """
 '''
-GEN_NAMES = {"@gen": ("verif_c16base", "a", GEN_FUNCTIONS_CCODE), "@gen2": ("verif_c16base2", "aa", GEN_FUNCTIONS_INLINE)}
+GEN_NAMES = {"@gen": ("verif_c16base", "a", GEN_FUNCTIONS_CCODE, "a <= bb"),
+             "@gen2": ("verif_c16base2", "aa", GEN_FUNCTIONS_INLINE, "1.5*aa <= 2.0*bb")}
 
 
 # ------------------------------------------------------------------------------------------------
@@ -182,6 +189,42 @@ def _template(tname, rep, info):
             raise HarnessError("new parameter name %s clashes with base %s" % (n, info.id))
         return n
 
+    if tname.startswith("vop-"):
+        return _vop_template(tname, rep, info, P)
+    if tname.startswith("same"):
+        # the new parameter keeps the NAME of the base parameter it replaces (e.g. a length given in other units)
+        if any(x != "volume" for x in t):
+            return None
+        if len(rep) == 1:
+            p, d0 = rep[0], d[0]
+            if tname == "same-affine":
+                b = 0.25 * d0
+                return dict(rows=[[p, "nm", 0.4 * d0, [0.0, INF], "volume", "same name, other units"]],
+                            text="%s = 2.0*%s + %r" % (p, p, b), fn=lambda v: {p: 2.0 * v[p] + b})
+            if tname == "same-power":
+                return dict(rows=[[p, "nm", math.sqrt(d0 / 1.5) * 1.05, [0.0, INF], "volume", "same name, other units"]],
+                            text="%s = 1.5*pow(%s, 2.0)" % (p, p), fn=lambda v: {p: 1.5 * v[p] ** 2.0})
+            return None
+        if len(rep) == 2:
+            p1, p2 = rep
+            d1, d2 = d
+            if tname == "same2-first":
+                y = fresh("ya")
+                return dict(rows=[[p1, "nm", 0.4 * d1, [0.0, INF], "volume", "same name"], _row(y, 0.6 * d2, "volume")],
+                            text="%s = 2.0*%s + %r\n%s = 1.5*%s + %r" % (p1, p1, 0.25 * d1, p2, y, 0.125 * d2),
+                            fn=lambda v: {p1: 2.0 * v[p1] + 0.25 * d1, p2: 1.5 * v[y] + 0.125 * d2})
+            if tname == "same2-second":
+                x = fresh("xa")
+                c = 1.2 / d2
+                return dict(rows=[_row(x, 0.4 * d1, "volume"), [p2, "nm", 0.9 * d2, [0.0, INF], "volume", "same name"]],
+                            text="%s = 2.0*%s + %r\n%s = %r*pow(%s, 2.0)" % (p1, x, 0.25 * d1, p2, c, p2),
+                            fn=lambda v: {p1: 2.0 * v[x] + 0.25 * d1, p2: c * v[p2] ** 2.0})
+            if tname == "same2-both":
+                return dict(rows=[[p1, "nm", 0.4 * d1, [0.0, INF], "volume", "same name"],
+                                  [p2, "nm", 0.6 * d2, [0.0, INF], "volume", "same name"]],
+                            text="%s = 2.0*%s + %r\n%s = 1.5*%s + %r" % (p1, p1, 0.25 * d1, p2, p2, 0.125 * d2),
+                            fn=lambda v: {p1: 2.0 * v[p1] + 0.25 * d1, p2: 1.5 * v[p2] + 0.125 * d2})
+        return None
     if len(rep) == 1:
         p, d0 = rep[0], d[0]
         if tname == "affine":
@@ -304,9 +347,57 @@ def _template(tname, rep, info):
     return None
 
 
-T1 = ["affine", "affine-neg", "power", "ratio", "cond", "interm1", "interm2", "prefix", "offset"]
-T2 = ["affine2", "volecc", "chain2", "prefix2", "shared"]
+T1 = ["affine", "affine-neg", "power", "ratio", "cond", "interm1", "interm2", "prefix", "offset",
+      "same-affine", "same-power"]
+T2 = ["affine2", "volecc", "chain2", "prefix2", "shared", "same2-first", "same2-second", "same2-both"]
 T3 = ["affine3", "scale3"]
+
+# ---- validity family: every parameter of every `valid` clause replaced by translations whose TOP-LEVEL operator
+# is ?: / + / - / * .  (parameter, side of the boundary that is valid, boundary value at the other defaults)
+VOP = {
+    "cylinder": [("radius", ">=", 0.0), ("length", ">=", 0.0)],
+    "barbell": [("radius_bell", ">=", 20.0), ("radius", "<=", 40.0)],
+    "capped_cylinder": [("radius_cap", ">=", 20.0), ("radius", "<=", 20.0)],
+    "mass_surface_fractal": [("fractal_dim_mass", "<=", 3.7), ("fractal_dim_surf", "<=", 4.2)],
+    "@gen": [("a", "<=", 40.0), ("bb", ">=", 30.0)],
+    "@gen2": [("aa", "<=", 160.0 / 3.0), ("bb", ">=", 22.5)],
+}
+VOP_IDS = {"verif_c16base": "@gen", "verif_c16base2": "@gen2"}
+TV = ["vop-cond", "vop-sum", "vop-diff", "vop-prod"]
+VOP_X, VOP_PD = 40.0, [["uniform", 4, 0.45], ["gaussian", 5, 0.15], ["gaussian", 3, 0.05]]
+
+
+def _vop_template(tname, rep, info, P):
+    """
+    New parameter w (default 40).  The translated value crosses the validity boundary B at w = Xb (30 if large
+    values are valid, 50 if small values are valid), so w = 40 is valid, the uniform +-45% and gaussian +-45% meshes
+    about 40 straddle the boundary, and w = 20 resp. 62 (+-15%) lies entirely outside.
+    """
+    base = VOP_IDS.get(info.id, info.id)
+    if len(rep) != 1 or base not in VOP or rep[0] not in [x[0] for x in VOP[base]]:
+        return None
+    p = rep[0]
+    _, side, B = [x for x in VOP[base] if x[0] == p][0]
+    Xb = 30.0 if side == ">=" else 50.0
+    u = float(P[p].default) / 40.0
+    rows = [["w", "", VOP_X, [0.0, INF], "volume", "new parameter"]]
+    extra = dict(x_alts={"w": [20.0 if side == ">=" else 62.0]}, pd_alts=VOP_PD, vop=True)
+    if tname == "vop-sum":
+        c = B - u * Xb
+        return dict(rows=rows, text="%s = %r*w + %r" % (p, u, c), fn=lambda v: {p: u * v["w"] + c}, **extra)
+    if tname == "vop-diff":
+        c = u * Xb - B
+        return dict(rows=rows, text="%s = %r*w - %r" % (p, u, c), fn=lambda v: {p: u * v["w"] - c}, **extra)
+    if tname == "vop-prod":
+        if B == 0.0:
+            return dict(rows=rows, text="%s = %r*w" % (p, u), fn=lambda v: {p: u * v["w"]}, **dict(extra, vop="never-invalid"))
+        k = B / Xb
+        return dict(rows=rows, text="%s = %r*w" % (p, k), fn=lambda v: {p: k * v["w"]}, **extra)
+    if tname == "vop-cond":
+        u1, c1, u2, c2 = 0.5 * u, B - 0.5 * u * Xb, 2.0 * u, B - 2.0 * u * Xb
+        return dict(rows=rows, text="%s = w > %r ? %r*w + %r : %r*w + %r" % (p, Xb, u1, c1, u2, c2),
+                    fn=lambda v: {p: (u1 * v["w"] + c1) if v["w"] > Xb else (u2 * v["w"] + c2)}, **extra)
+    return None
 
 
 def base_info(ctx, base):
@@ -332,14 +423,14 @@ def setup(ctx):
     # pristine process for the sequence cases, forked before this process has loaded or generated anything
     zygote.start(ctx, "c16", _preload)
     from sasmodels import core
-    names = [b for b in (QUICK_BASES if ctx.quick else ALL_BASES) if not b.startswith("@")]
+    names = [b for b in (QUICK_BASES if ctx.quick else ALL_BASES) + list(VOP) if not b.startswith("@")]
     bad = build.prebuild(ctx, names)
     if bad:
         raise HarnessError("base models failed to build: %r" % bad)
-    for key, (name, first, functions) in GEN_NAMES.items():
+    for key, (name, first, functions, valid) in GEN_NAMES.items():
         path = os.path.join(ctx.scratch, name + ".py")
         with open(path, "w") as fh:
-            fh.write(GEN_BASE % {"name": name, "A": first, "functions": functions})
+            fh.write(GEN_BASE % {"name": name, "A": first, "functions": functions, "valid": valid})
         ctx.notes[key] = path
         core.load_model(path, dtype="double", platform="dll")      # compiled once, serially
 
@@ -394,6 +485,11 @@ def cases(ctx):
             for alt in insert_alternatives(info, rep, new_ids):
                 out.append({"kind": "prog", "base": base, "rep": rep, "template": tn, "insert": alt})
     out.append({"kind": "python-base"})
+    # validity family (all bases with a `valid` clause, both tiers)
+    for base in VOP:
+        for pname, _, _ in VOP[base]:
+            for tn in TV:
+                out.append({"kind": "prog", "base": base, "rep": [pname], "template": tn, "insert": None})
     # sequences of reparameterisations that differ only in the equations, built in one process
     for base in bases:
         info = base_info(ctx, base)
@@ -514,7 +610,7 @@ def _run_prog(case, ctx):
         return r
     bsig = {p.id: _psig(p) for p in bpars}
     for p in dpars:
-        if p.id in bsig and _psig(p) != bsig[p.id]:
+        if p.id in bsig and p.id not in new_ids and _psig(p) != bsig[p.id]:
             r.fail(("%s\n  untouched parameter changed: %s -> %s" % (call, bsig[p.id], _psig(p))) + where,
                    dict(fk0, clause="table-untouched"))
             return r
@@ -552,9 +648,15 @@ def _run_prog(case, ctx):
     bdefaults = {p.id: float(p.default) for p in bpars}
     retained_vol = [p.id for p in bpars if p.type == "volume" and p.id not in rep and p.length == 1]
     new_vol = [row[0] for row in tpl["rows"] if row[4] == "volume"]
-    dims = [("nominal", False, [True])]
+    vop = tpl.get("vop")
+    dims = [("nominal", False, [] if vop else [True])]       # the validity family keeps its geometry about the boundary
+    for nm, alts in tpl.get("x_alts", {}).items():
+        dims.append(("x:" + nm, None, alts))
     for nm in new_vol[:2]:
-        dims.append(("pd:" + nm, None, PD_ALTS))
+        dims.append(("pd:" + nm, None, tpl.get("pd_alts", PD_ALTS)))
+    if any(p.id in new_ids and p.id in bsig for p in dpars):
+        r.branch("program:new-parameter-named-like-replaced")
+    geo = {"valid-mono": 0, "invalid-mono": 0, "straddled": 0, "mesh-all-invalid": 0}
     for nm in retained_vol[:1]:
         dims.append(("pd:" + nm, None, PD_ALTS[:2]))
     dims.append(("cutoff", 0.0, [0.05]))
@@ -572,6 +674,9 @@ def _run_prog(case, ctx):
             if cfg["nominal"] and (p.type == "volume" or (ptype != "volume" and p.id in new_ids)):
                 v *= ctx.factor(k)
             vals[p.id] = v
+        for key, alt in cfg.items():
+            if key.startswith("x:") and alt is not None:
+                vals[key[2:]] = float(alt)
         pars = dict(vals, scale=SCALE, background=BACKGROUND)
         disp = {}
         for key, alt in cfg.items():
@@ -599,6 +704,14 @@ def _run_prog(case, ctx):
             return p
         ref = G.mean_from_points(point_fn, nq, dict(vals, scale=SCALE, background=BACKGROUND), disp, cutoff)
         br = ["dim:" + dim]
+        if vop:
+            kind = (("straddled" if ref["nqual"] and ref["ninvalid"] else "mesh-all-invalid" if not ref["nqual"] else None)
+                    if disp else ("valid-mono" if ref["nqual"] else "invalid-mono"))
+            if kind:
+                geo[kind] += 1
+                br.append("vop:" + kind)
+        if any(k in bsig and k in new_ids for k in disp):
+            br.append("dispersed-same-named-new-parameter")
         if no_volume_left:
             br.append("no-volume-typed-parameter-left")
         if disp:
@@ -652,6 +765,10 @@ def _run_prog(case, ctx):
                       "derived": [float(v) for v in I], "base_at_translated": [float(v) for v in ref["I"]],
                       "mesh_points": ref["npoints"], "qualifying": ref["nqual"]})
     r.extra["programs"] += 1
+    if vop is True and min(geo.values()) == 0:
+        raise HarnessError("validity family %s: inputs do not reach both sides of the boundary: %r" % (call, geo))
+    if vop:
+        r.branch("program:vop")
     return r
 
 
@@ -846,6 +963,13 @@ def finish(ctx, report):
     report.require("program:no-volume-typed-parameter-left", len(QUICK_BASES if ctx.quick else ALL_BASES),
                    "programs replacing ALL volume parameters by plain-typed new parameters")
     report.require("no-volume-typed-parameter-left", 200, "evaluations of a derived table without volume-typed parameter")
+    for t in TV:
+        report.require("template:" + t, 2 * len(VOP), "validity-family programs with template " + t)
+    report.require("program:vop", 8 * len(VOP), "validity-family programs evaluated")
+    for k in ("valid-mono", "invalid-mono", "straddled", "mesh-all-invalid"):
+        report.require("vop:" + k, 5 * len(VOP), "validity family: " + k)
+    report.require("program:new-parameter-named-like-replaced", 15, "new parameter named like the replaced one")
+    report.require("dispersed-same-named-new-parameter", 200, "dispersity on a same-named new parameter")
     for t in T3:
         report.require("template:" + t, 1, "programs with template " + t)
     nb = len(QUICK_BASES if ctx.quick else ALL_BASES)
